@@ -757,10 +757,14 @@ class Gen:
     # ---------------------------------------------------------------- consumers
     def consumers(self):
         """every place outside the folder where a folded constant is stored: the conversion applied to the int64"""
-        sites = [('declspec', 'attr->align'), ('array_dimensions', 'array_of(len)'), ('enum_specifier', 'val'),
+        sites = [('declspec', 'align'), ('array_dimensions', 'array_of(len)'), ('enum_specifier', 'val'),
                  ('array_designator', '*begin'), ('array_designator', '*end'), ('stmt', 'begin'), ('stmt', 'end'),
                  ('struct_members', 'mem->bit_width'), ('attribute_list', 'ty->align'),
                  ('count_array_init_elements', 'i'), ('write_gvar_data', 'val'), ('write_gvar_data', 'newval')]
+        # declspec: the folded _Alignas operand goes to the local `int align`, then the strictest specifier wins (C11 6.7.5p6)
+        body = re.sub(r'\s+', ' ', function_body(strip_comments(self.src), r'^static\s+Type\s*\*\s*declspec\s*\([^;{]*\)\s*\{', 'declspec'))
+        if 'int align; if (is_typename(tok)) align = typename(&tok, tok)->align; else align = const_expr(&tok, tok); attr->align = MAX(attr->align, align);' not in body:
+            raise ExtractError('declspec: the _Alignas arm no longer stores MAX(attr->align, (int)const_expr)')
         found = []
         for fname in sorted({s[0] for s in sites}):
             fn = self.fn('parse.c', fname)
